@@ -21,7 +21,7 @@ Decided on all paths of the code generator (i.e. for every template the compiler
 """
 from .. import cfg, flow, errflow, query, arms
 from ..brackets import Analysis, State, GEN, INSTR, PEND, COUNTERS
-from ..facts import op_place, norm_path
+from ..facts import op_place, norm_path, const_int
 
 COMPILE_STMT = GEN + "::compile_stmt"
 CLOSE = GEN + "::close_scopes_up_to_loop"
@@ -30,6 +30,50 @@ PARSER = "minijinja::compiler::parser::Parser"
 EI = "minijinja::vm::Executor::eval_impl"
 SCOPE_OF = {"frames": "Frame", "captures": "Capture", "autoescapes": "AutoEscape"}
 CLOSER_OF = {"Frame": {"PopFrame"}, "Capture": {"EndCapture", "DiscardTop"}, "AutoEscape": {"PopAutoEscape"}}
+
+
+def check_closure_ownership(ctx, prog, tag):
+    """B12 (round 11, seed C05-11): the closure attached to a frame receives every assignment made in that frame
+    (`Context::store`) and is what macros declared there see.  It therefore belongs to one frame: what is installed as a
+    frame's closure is a closure created for it on the spot (the index of a freshly pushed `Closure`), the value that
+    `take_closure()` removed from the same place earlier (the include pairing), or nothing.  A frame that *joins* the
+    closure of an enclosing frame writes its own assignments into the outer scope: they survive `PopFrame`, and macros
+    declared outside see values assigned inside a `with` / loop / block."""
+    n = 0
+    setters = [k for k in prog.fns if k.endswith("Context::reset_closure")]
+    for sk in setters:
+        for c in prog.calls_of(sk):
+            g = c.fn
+            if g.crate != "minijinja" or len(c.args) < 2:
+                continue
+            n += 1
+            bad = []
+
+            def scan(op, depth=0):
+                if "c" in op or depth > 4:
+                    return
+                for o in flow.origins(g, op):
+                    if o.kind == "agg" and o.rv.get("variant") in ("None",):
+                        continue
+                    if o.kind == "agg" and o.rv.get("variant") == "Some":
+                        for x in o.rv["ops"]:
+                            scan(x, depth + 1)
+                        continue
+                    if o.kind == "call" and o.call.name.endswith(("Context::take_closure", "::take_closure")):
+                        continue
+                    if o.kind == "call" and o.call.name.rsplit("::", 1)[-1] == "len" and "Vec" in o.call.name:
+                        continue
+                    if o.kind == "bin" and o.rv["op"] in ("Sub", "SubWithOverflow") and const_int(o.rv["b"]) == 1:
+                        scan(o.rv["a"], depth + 1)
+                        continue
+                    if o.kind == "arg" and g.kind != "closure":
+                        continue            # handed through by a wrapper: its callers are checked where they call the setter
+                    bad.append(repr(o)[:90])
+            scan(c.args[1])
+            ctx.ob("C05.B12.a-frame's-closure-is-created-for-it", "%s%s|reset_closure" % (tag, g.path.split("::")[-1] if g.kind != "closure" else g.path), not bad,
+                   "the closure installed for the current frame is neither fresh, nor the one taken from it before, nor None (%s): "
+                   "assignments of this frame land in another frame's closure" % bad, g.where(c.bb))
+    return n
 
 
 def run(ctx):
@@ -313,6 +357,9 @@ def run(ctx):
             ctx.floor("C05.B3 closer sites" + tag, nb, 4)
         # ---- B4
         check_with_execution_state(ctx, prog, tag)
+        n12 = check_closure_ownership(ctx, prog, tag)
+        if any(k.endswith("Context::reset_closure") for k in prog.fns):
+            ctx.floor("C05.B12 places that install a frame's closure" + tag, n12, 2)
     ctx.sample({"summaries": {k.split("::")[-1]: repr(v) for k, v in list(an.summaries.items())[:40] if v and v.key() != State().key()}})
 
 
